@@ -543,5 +543,721 @@ def replay(case):
     return Failure(sig=_signature(case, res[0]), case=case, detail=res[1]) if res else None
 
 
+
+# =========================================================================== correspondence families (T2/T4)
+
+
+def _divs_text(d):
+    d = list(d)
+    if all(x is None for x in d):
+        return "unknown"
+    return "known:" + (",".join(str(int(x)) for x in d) or "-")
+
+
+def _err(ex):
+    return "ERR " + type(ex).__name__
+
+
+def _nat(l):
+    return ",".join(str(int(x)) for x in l) or "-"
+
+
+def _frame_with_divs(full):
+    """from_map source with the user divisions `full` (len(full) - 1 partitions)"""
+    import dask_expr as dx
+
+    n = len(full) - 1
+    pdf = pd.DataFrame({"x": np.arange(max(n, 1), dtype="int64")})
+    parts = [pdf.iloc[i : i + 1] for i in range(n)]
+    return dx.from_map(e2e._PartGetter(parts), list(range(n)), meta=pdf.iloc[:0], divisions=tuple(full)).expr
+
+
+def _index_sets(n, maxlen=3, extra_rng=None):
+    out = [[]]
+    for r in range(1, maxlen + 1):
+        out += [list(c) for c in itertools.product(range(n), repeat=r)]
+    return out
+
+
+def fam_seldiv(ctx):
+    """T2: Partitions._divisions and PartitionsFiltered.divisions (both through _divisions_of_selection)."""
+    from dask_expr._expr import Partitions
+
+    f = Family("selection_divisions[Partitions._divisions, PartitionsFiltered.divisions]")
+    reqs, code, inputs, nontriv = [], [], [], []
+    vectors = [[0, 10], [0, 10, 20], [0, 10, 10, 20], [5, 6, 7, 8, 9], [0, 0, 3, 7, 7, 9]]
+    if not ctx.quick:
+        vectors += [[1, 2, 3, 4, 5, 6, 7]]
+    for full in vectors:
+        fr = _frame_with_divs(full)
+        n = len(full) - 1
+        sets = _index_sets(n, 3 if n <= 4 else 2)
+        for _ in range(10):
+            sets.append([ctx.rng.randrange(n) for _ in range(ctx.rng.randint(2, 6))])
+            sets.append(sorted(set(ctx.rng.randrange(n) for _ in range(ctx.rng.randint(1, 5)))))
+        for P in sets:
+            for site in ("Partitions", "PartitionsFiltered"):
+                if site == "PartitionsFiltered" and not P:
+                    # an empty `_partitions` operand is falsy: the source treats it like a selection of nothing;
+                    # `divisions` then runs the same loop
+                    pass
+                try:
+                    if site == "Partitions":
+                        d = Partitions(fr, P)._divisions()
+                    else:
+                        d = fr.substitute_parameters({"_partitions": P}).divisions
+                    txt = _divs_text(d)
+                except Exception as ex:  # noqa: BLE001
+                    txt = _err(ex)
+                reqs.append(f"pt seldiv full={_nat(full)} P={_nat(P)}")
+                code.append(txt)
+                inputs.append({"site": site, "full": full, "P": P})
+                nontriv.append(len(P) > 0)
+    model = drive(reqs)
+    f.compare(inputs, code, model, nontriv)
+    f.exhaustive = True
+    f.note = "division vectors with duplicates, all index lists of length <= 3 over the partitions (+ seeded longer ones), both call sites"
+    return f
+
+
+def fam_partitions_layer(ctx):
+    """T2: exact graph of Partitions._layer()."""
+    from dask_expr._expr import Partitions
+
+    f = Family("graph_equality[Partitions._task/_layer]")
+    reqs, code, inputs = [], [], []
+    for n in range(1, 6):
+        fr = _frame_with_divs(list(range(n + 1)))
+        for P in _index_sets(n, 3 if n <= 4 else 2)[1:]:
+            e = Partitions(fr, P)
+            code.append("G " + rgraph(e._layer(), Names(e._name, [fr._name])))
+            reqs.append(f"pt layer-partitions P={_nat(P)}")
+            inputs.append({"n": n, "P": P})
+    model = drive(reqs)
+    f.compare(inputs, code, model)
+    f.exhaustive = True
+    return f
+
+
+def _canon_task(t):
+    """hashable canonical form of a source task (literal frames by content)"""
+    import functools
+
+    if isinstance(t, (pd.DataFrame, pd.Series)):
+        return ("pd", type(t).__name__, tuple(map(str, t.index.tolist())), tuple(map(str, np.asarray(t).ravel().tolist())))
+    if isinstance(t, pd.Index):
+        return ("pdidx", tuple(map(str, t.tolist())))
+    if isinstance(t, np.ndarray):
+        return ("np", tuple(np.asarray(t).ravel().tolist()))
+    if isinstance(t, (list, tuple)):
+        return (type(t).__name__,) + tuple(_canon_task(x) for x in t)
+    if isinstance(t, dict):
+        return ("dict",) + tuple((str(k), _canon_task(v)) for k, v in sorted(t.items(), key=lambda kv: str(kv[0])))
+    if isinstance(t, functools.partial):
+        return ("partial", getattr(t.func, "__name__", "?"))
+    if isinstance(t, (range, slice)):
+        return repr(t)
+    if callable(t):
+        return ("fn", getattr(t, "__qualname__", None) or getattr(t, "__name__", None) or type(t).__name__)
+    if isinstance(t, (int, float, str, bool, type(None), np.integer, np.floating, pd.Timestamp)):
+        return repr(t)
+    return ("obj", type(t).__name__)
+
+
+def _source_exprs(n):
+    """(name, unfiltered expression with n partitions) for every PartitionsFiltered source class"""
+    import dask_expr as dx
+    from dask import delayed
+
+    pdf = pd.DataFrame({"a": np.arange(2 * n, dtype="int64"), "b": np.arange(2 * n, dtype="int64") % 3})
+    out = []
+    out.append(("FromPandas", dx.from_pandas(pdf, npartitions=n, sort=True).expr))
+    out.append(("FromPandas[series]", dx.from_pandas(pdf, npartitions=n, sort=True).a.simplify().expr))
+    out.append(("FromArray", dx.from_array(pdf.to_numpy(), chunksize=2, columns=["a", "b"]).expr))
+    parts = [pdf.iloc[2 * i : 2 * i + 2] for i in range(n)]
+    out.append(("FromMap", dx.from_map(e2e._PartGetter(parts), list(range(n)), meta=pdf.iloc[:0]).expr))
+    out.append(("FromMap[kwargs]", dx.from_map(_fm_kw, list(range(n)), meta=pdf.iloc[:0], k=3, enforce_metadata=True).expr))
+    out.append(("FromDelayed", dx.from_delayed([delayed(p, name=f"verif-d-{n}-{i}") for i, p in enumerate(parts)], meta=pdf.iloc[:0]).expr))
+    from dask_expr.datasets import timeseries
+
+    out.append(("Timeseries", timeseries(start="2000-01-01", end=str(pd.Timestamp("2000-01-01") + pd.Timedelta(days=n))[:10],
+                                         freq="12h", partition_freq="1d", dtypes={"a": int, "b": float}, seed=3).expr))
+    return out
+
+
+def _fm_kw(i, k=1):
+    return pd.DataFrame({"a": [i * k], "b": [i]})
+
+
+def _file_exprs(n):
+    import os
+
+    import dask_expr as dx
+
+    d = os.path.join(_tmpdir(), f"t2-{n}")
+    if not os.path.exists(d):
+        os.makedirs(os.path.join(d, "csv"))
+        pdf = pd.DataFrame({"a": np.arange(2 * n, dtype="int64"), "b": np.arange(2 * n, dtype="int64") % 3})
+        for i in range(n):
+            pdf.iloc[2 * i : 2 * i + 2].to_csv(os.path.join(d, "csv", f"p{i}.csv"), index=False)
+        dx.from_pandas(pdf, npartitions=n).to_parquet(os.path.join(d, "pq"))
+    return [("ReadCSV", dx.read_csv(os.path.join(d, "csv", "p*.csv")).expr),
+            ("ReadParquetFSSpec", dx.read_parquet(os.path.join(d, "pq")).expr),
+            ("ReadParquetPyarrowFS", dx.read_parquet(os.path.join(d, "pq"), filesystem="arrow").expr)]
+
+
+def fam_filtered_contract(ctx):
+    """T2: task j of cls(..., _partitions=P) is task P[j] of cls(...), for every source class."""
+    f = Family("filtered_contract[PartitionsFiltered._task x every source]")
+    reqs, code, inputs, nontriv = [], [], [], []
+    sizes = [1, 2, 3, 4] if ctx.quick else [1, 2, 3, 4, 5, 6]
+    for n in sizes:
+        srcs = _source_exprs(n) + (_file_exprs(n) if n in (2, 4, 6) else [])
+        for name, e in srcs:
+            if e.npartitions != n:
+                continue
+            try:
+                full = [_canon_task(e._task(i)) for i in range(n)]
+            except Exception as ex:  # noqa: BLE001
+                full = None
+                fullerr = _err(ex)
+            sets = _index_sets(n, 2 if n > 3 else 3)[1:]
+            if n > 3:
+                sets += [[n - 1, 0, 1], [0, 2, 3], list(range(n)), list(range(n))[::-1], [1, 1, 1]]
+            for P in sets:
+                try:
+                    if full is None:
+                        raise RuntimeError(fullerr)
+                    ef = e.substitute_parameters({"_partitions": P})
+                    if ef.npartitions != len(P):
+                        raise AssertionError(f"npartitions={ef.npartitions}")
+                    lay = ef._layer()
+                    lines = []
+                    for (nm, j), t in lay.items():
+                        c = _canon_task(t)
+                        src = full.index(c) if c in full else "?"
+                        own = "self" if nm == ef._name else "other"
+                        lines.append(f"@{own}:{j}=alias(src0:{src})")
+                    txt = "G " + "|".join(sorted(set(lines)))
+                except Exception as ex:  # noqa: BLE001
+                    txt = _err(ex)
+                reqs.append(f"pt layer-filtered P={_nat(P)}")
+                code.append(txt)
+                inputs.append({"source": name, "n": n, "P": P})
+                nontriv.append(P != list(range(n)))
+    model = drive(reqs)
+    f.compare(inputs, code, model, nontriv)
+    f.exhaustive = True
+    f.note = f"sources FromPandas(frame/series), FromArray, FromMap(+kwargs), FromDelayed, Timeseries, ReadCSV, ReadParquet(fsspec/arrow); n in {sizes}; all index lists of length <= 3 (2 for n > 3) + reordered/repeated"
+    return f
+
+
+def fam_compose(ctx):
+    """T2: Partitions._simplify_down on a PartitionsFiltered frame (composition of selections)."""
+    from dask_expr._expr import Partitions
+
+    f = Family("rule_output[Partitions._simplify_down on PartitionsFiltered]")
+    reqs, code, inputs = [], [], []
+    for n in (2, 3, 4):
+        for name, e in _source_exprs(n)[:4]:
+            for Q in [None, [n - 1, 0], [0, 0, 1], list(range(n))[::-1]]:
+                eq = e if Q is None else e.substitute_parameters({"_partitions": Q})
+                m = eq.npartitions
+                for P in _index_sets(m, 2)[1:]:
+                    try:
+                        r = Partitions(eq, P)._simplify_down()
+                        txt = _nat(r.operand("_partitions")) if type(r) is type(e) else f"?{type(r).__name__}"
+                    except Exception as ex:  # noqa: BLE001
+                        txt = _err(ex)
+                    reqs.append(f"pt compose inner={'None' if Q is None else _nat(Q)} P={_nat(P)}")
+                    code.append(txt)
+                    inputs.append({"source": name, "n": n, "inner": Q, "P": P})
+    model = drive(reqs)
+    f.compare(inputs, code, model)
+    return f
+
+
+def fam_fromarray(ctx):
+    """T2: FromArray._divisions / _filtered_task (index range from the unfiltered divisions, data slice)."""
+    from dask_expr.io.io import FromArray
+
+    f = Family("task_equality[FromArray._divisions/_filtered_task]")
+    reqs, code, inputs, nontriv = [], [], [], []
+    lens = range(1, 9) if ctx.quick else range(1, 13)
+    for ln in lens:
+        arr = np.arange(ln, dtype="int64")
+        for cs in range(1, 6):
+            n = -(-ln // cs)
+            base_e = FromArray(arr, cs, None, None, None)
+            sets = [list(range(n))] + _index_sets(n, 2 if n <= 4 else 1)[1:]
+            for P in sets:
+                try:
+                    e = base_e if P == list(range(n)) and ctx.rng.random() < 0.5 else FromArray(arr, cs, None, None, None, P)
+                    divs = ",".join(str(int(x)) for x in e._divisions())
+                    ents = []
+                    for j in range(len(P)):
+                        try:
+                            t = e._task(j)
+                            data, idx = t[1], t[2]
+                            try:
+                                t[0](data, idx, *t[3:])
+                                okk = "ok"
+                            except Exception as ex2:  # noqa: BLE001
+                                okk = _err(ex2)
+                            dtxt = f"{int(data[0])}..{int(data[-1]) + 1}" if len(data) else "empty"
+                            itxt = f"{idx[0]}..{idx[-1] + 1}" if len(idx) else "empty"
+                            ents.append(f"idx={itxt},data={dtxt},{okk}")
+                        except Exception as ex:  # noqa: BLE001
+                            ents.append(_err(ex))
+                    txt = "div=" + divs + ";" + ";".join(ents)
+                except Exception as ex:  # noqa: BLE001
+                    txt = _err(ex)
+                reqs.append(f"pt fromarray len={ln} cs={cs} P={_nat(P)}")
+                code.append(txt)
+                inputs.append({"len": ln, "chunksize": cs, "P": P, "source": "from_array"})
+                nontriv.append(P != list(range(n)))
+    model = drive(reqs)
+    f.compare(inputs, code, model, nontriv)
+    f.exhaustive = True
+    f.note = f"array lengths {lens[0]}..{lens[-1]}, chunksize 1..5, all index lists of length <= 2"
+    return f
+
+
+def fam_frompandas(ctx):
+    """T2: FromPandas._filtered_task slices and _get_lengths; T3: sorted_division_locations output satisfies locsOK."""
+    import dask_expr as dx
+
+    f = Family("task_equality[FromPandas._filtered_task/_get_lengths] + hypothesis[sorted_division_locations]")
+    reqs, code, inputs, nontriv = [], [], [], []
+    idxs = {"range": lambda n: list(range(n)), "dup": lambda n: [i // 3 for i in range(n)], "gap": lambda n: [i * i for i in range(n)]}
+    for nrows in ((5, 9) if ctx.quick else (1, 4, 5, 9, 12)):
+        for kind, mk in idxs.items():
+            pdf = pd.DataFrame({"pos": np.arange(nrows, dtype="int64")}, index=pd.Index(mk(nrows), dtype="int64"))
+            for k in (1, 2, 3, 4):
+                e0 = dx.from_pandas(pdf, npartitions=k, sort=True).expr
+                n = e0.npartitions
+                divs, locs = e0._divisions_and_locations
+                reqs.append(f"dv locsok idx={_nat(pdf.index.tolist())} divs={_nat(divs)} locs={_nat(locs)}")
+                code.append("OK")
+                inputs.append({"nrows": nrows, "index": kind, "npartitions": k, "check": "locsOK"})
+                nontriv.append(True)
+                for P in [None] + _index_sets(n, 2)[1:] + ([[n - 1, 0, 0]] if n > 1 else []):
+                    try:
+                        e = e0 if P is None else e0.substitute_parameters({"_partitions": P})
+                        sl = []
+                        for j in range(e.npartitions):
+                            t = e._task(j)
+                            sl.append(f"{int(t['pos'].iloc[0])}:{int(t['pos'].iloc[-1]) + 1}" if len(t) else "e")
+                        # empty partitions cannot be located by content: take them from the locations
+                        ps = list(range(n)) if P is None else P
+                        sl = [s if s != "e" else f"{locs[p]}:{locs[p+1]}" for s, p in zip(sl, ps)]
+                        txt = "slices=" + ";".join(sl) + " lengths=" + _nat(e._get_lengths())
+                    except Exception as ex:  # noqa: BLE001
+                        txt = _err(ex)
+                    reqs.append(f"pt frompandas locs={_nat(locs)} P={'None' if P is None else _nat(P)}")
+                    code.append(txt)
+                    inputs.append({"nrows": nrows, "index": kind, "npartitions": k, "P": P, "source": "from_pandas"})
+                    nontriv.append(P is not None)
+    model = drive(reqs)
+    f.compare(inputs, code, model, nontriv)
+    return f
+
+
+def _plan_text(top, n):
+    from dask_expr._expr import BlockwiseHead, Partitions
+    from dask_expr._repartition import Repartition
+
+    extra = ""
+    if isinstance(top.frame, Repartition):
+        second = b01(top.safe)
+        if top.frame.operand("new_partitions") != 1 or top.operand("npartitions") != 1 or top.n != n:
+            extra += ";odd-second"
+        inner = top.frame.frame
+    else:
+        second = "none"
+        inner = top
+    if not isinstance(inner, BlockwiseHead) or not isinstance(inner.frame, Partitions) or inner.n != n:
+        return "?shape " + str(top)
+    return f"parts={_nat(inner.frame.partitions)};k={inner.operand('npartitions')};safe1={b01(inner.safe)};second={second}{extra}"
+
+
+def b01(b):
+    return "1" if b else "0"
+
+
+def fam_head_lower(ctx):
+    """T2: Head._lower / Tail._lower (expression level) and the lowered graphs."""
+    import dask
+
+    from dask_expr._expr import Head, Tail, _concat, safe_head
+    from dask.utils import M
+
+    f = Family("rule_output+graph_equality[Head._lower, Tail._lower, BlockwiseHead/Tail._task]")
+    reqs, code, inputs, nontriv = [], [], [], []
+    for np_ in range(1, 6):
+        fr = _frame_with_divs(list(range(np_ + 1)))
+        for k in range(-2, np_ + 3):
+            for n in (3,):
+                try:
+                    low = Head(fr, n, k)._lower()
+                    txt = _plan_text(low, n)
+                except Exception as ex:  # noqa: BLE001
+                    txt = _err(ex)
+                reqs.append(f"hd lower np={np_} k={k}")
+                code.append(txt)
+                inputs.append({"np": np_, "k": k, "what": "Head._lower"})
+                nontriv.append(True)
+                # the whole lowered graph
+                if k == 0:
+                    continue
+                try:
+                    e = Head(fr, n, k).lower_completely()
+                    g = e.__dask_graph__()
+                    tags = {fr._name: "F"}
+                    chain = []
+                    x = e
+                    while x._name != fr._name:
+                        chain.append(x)
+                        x = x.dependencies()[0]
+                    # chain = [out?, rep?, bh, sel] from the top
+                    names = [c._name for c in chain]
+                    tags[names[-1]] = "sel"
+                    tags[names[-2]] = "bh"
+                    if len(names) == 4:
+                        tags[names[1]] = "rep"
+                        tags[names[0]] = "out"
+                    elif len(names) == 3:
+                        tags[names[0]] = "out"
+
+                    def rk(key):
+                        return f"{tags.get(key[0], '?' + key[0][:12])}:{key[1]}"
+
+                    lines = []
+                    for key, t in g.items():
+                        if key[0] == fr._name:
+                            continue
+                        if isinstance(t, tuple) and t and callable(t[0]):
+                            if t[0] is _concat:
+                                lines.append(f"{rk(key)}=concat([{','.join(rk(a) for a in t[1])}])")
+                            elif t[0] is safe_head:
+                                lines.append(f"{rk(key)}=safe_head({rk(t[1])},{t[2]})")
+                            elif t[0] == M.head:
+                                lines.append(f"{rk(key)}=head({rk(t[1])},{t[2]})")
+                            else:
+                                lines.append(f"{rk(key)}=?fn")
+                        else:
+                            lines.append(f"{rk(key)}=alias({rk(t)})")
+                    txt = "G " + "|".join(sorted(lines))
+                except Exception as ex:  # noqa: BLE001
+                    txt = _err(ex)
+                reqs.append(f"hd graph np={np_} n={n} k={k}")
+                code.append(txt)
+                inputs.append({"np": np_, "k": k, "n": n, "what": "lowered head graph"})
+                nontriv.append(True)
+        # tail
+        for n in (2,):
+            try:
+                e = Tail(fr, n).lower_completely()
+                g = e.__dask_graph__()
+                sel = e.dependencies()[0]
+                tags = {fr._name: "F", sel._name: "sel", e._name: "bh"}
+
+                def rk(key):
+                    return f"{tags.get(key[0], '?')}:{key[1]}"
+
+                lines = []
+                for key, t in g.items():
+                    if key[0] == fr._name:
+                        continue
+                    if isinstance(t, tuple) and t and callable(t[0]):
+                        lines.append(f"{rk(key)}=" + (f"tail({rk(t[1])},{t[2]})" if t[0] == M.tail else "?fn"))
+                    else:
+                        lines.append(f"{rk(key)}=alias({rk(t)})")
+                txt = "G " + "|".join(sorted(lines))
+            except Exception as ex:  # noqa: BLE001
+                txt = _err(ex)
+            reqs.append(f"tl graph np={np_} n={n}")
+            code.append(txt)
+            inputs.append({"np": np_, "n": n, "what": "lowered tail graph"})
+            nontriv.append(True)
+    model = drive(reqs)
+    f.compare(inputs, code, model, nontriv)
+    f.exhaustive = True
+    f.note = "npartitions 1..5, head npartitions operand -2..np+2"
+    return f
+
+
+def fam_head_divisions(ctx):
+    from dask_expr._expr import Head, Tail
+
+    f = Family("divisions[Head._divisions, Tail._divisions]")
+    reqs, code, inputs = [], [], []
+    for full in ([0, 10], [0, 10, 20, 30], [1, 1, 4, 9, 9]):
+        fr = _frame_with_divs(full)
+        for k in range(-3, len(full) + 1):
+            try:
+                txt = _nat(Head(fr, 3, k)._divisions())
+            except Exception as ex:  # noqa: BLE001
+                txt = _err(ex)
+            reqs.append(f"hd divisions d={_nat(full)} k={k}")
+            code.append(txt)
+            inputs.append({"full": full, "k": k})
+        reqs.append(f"tl divisions d={_nat(full)}")
+        code.append(_nat(Tail(fr, 3)._divisions()))
+        inputs.append({"full": full, "tail": True})
+    model = drive(reqs)
+    f.compare(inputs, code, model)
+    f.exhaustive = True
+    return f
+
+
+def _elemwise_exprs():
+    """Elemwise (and MapPartitions) expressions with literal, scalar, series and frame operands on frames with 1 and 4 partitions"""
+    import dask_expr as dx
+
+    out = []
+    pdf = base(8)
+    for k in (1, 4):
+        df = dx.from_pandas(pdf, npartitions=k)
+        s = df.a
+        cands = {
+            "frame+1": df + 1,
+            "series+scalar": s + s.sum(),
+            "scalar+series": s.max() - s if k > 1 else None,
+            "assign_series": df.assign(z=s + 1),
+            "assign_scalar": df.assign(z=s.sum()),
+            "frame_mul_series_axis0": df[["a", "v"]].mul(df.b, axis=0),
+            "where": s.where(df.b > 0, -1),
+            "series+series": df.a + df.b,
+            "clip": df.clip(lower=1, upper=5),
+            "isin": s.isin([1, 2]),
+            "fillna_scalar": s.fillna(s.max()),
+            "map_partitions_scalar": df.map_partitions(_mp2, df.b.sum()),
+            "map_partitions": df.map_partitions(_mp),
+            "rename": df.rename(columns={"a": "A"}),
+            "astype": df.astype({"a": "float64"}),
+            "to_frame": s.to_frame(),
+        }
+        for nm, c in cands.items():
+            if c is not None:
+                out.append((f"{nm}[np={k}]", c.expr))
+    return out
+
+
+def _ops_text(E):
+    from dask_expr._core import Expr
+
+    ents = []
+    for op in E.operands:
+        if isinstance(op, Expr):
+            ents.append(f"e:{op.npartitions}:{op.ndim}")
+        else:
+            ents.append("l")
+    return ";".join(ents) or "-"
+
+
+def fam_push_rules(ctx):
+    """T2: Head/Tail/Partitions._simplify_down on constructed Blockwise expressions; nested heads/tails."""
+    from dask_expr._core import Expr
+    from dask_expr._expr import Blockwise, Elemwise, Head, MapPartitions, Partitions, Tail
+
+    f = Family("rule_output[Head/Tail/Partitions._simplify_down]")
+    reqs, code, inputs, nontriv = [], [], [], []
+    for nm, E in _elemwise_exprs():
+        opsd = _ops_text(E)
+        if isinstance(E, Elemwise):
+            for n, k in ((7, 2), (3, 1), (5, -1)):
+                try:
+                    r = Head(E, n, k)._simplify_down()
+                    if type(r) is not type(E):
+                        raise AssertionError(f"result is {type(r).__name__}")
+                    ents = []
+                    for op, o0 in zip(r.operands, E.operands):
+                        if isinstance(op, Head) and isinstance(o0, Expr) and op.frame._name == o0._name:
+                            ents.append(f"{op.n}:{op.operand('npartitions')}")
+                        elif isinstance(op, Expr) and isinstance(o0, Expr) and op._name == o0._name or not isinstance(op, Expr):
+                            ents.append("-")
+                        else:
+                            ents.append("?")
+                    txt = ",".join(ents)
+                except Exception as ex:  # noqa: BLE001
+                    txt = _err(ex)
+                reqs.append(f"hd push ndim={E.ndim} ops={opsd} n={n} k={k}")
+                code.append(txt)
+                inputs.append({"expr": nm, "rule": "Head._simplify_down", "n": n, "k": k})
+                nontriv.append(True)
+            try:
+                r = Tail(E, 4)._simplify_down()
+                ents = []
+                for op, o0 in zip(r.operands, E.operands):
+                    if isinstance(op, Tail) and isinstance(o0, Expr) and op.frame._name == o0._name:
+                        ents.append(str(op.n))
+                    elif not isinstance(op, Expr) or op._name == o0._name:
+                        ents.append("-")
+                    else:
+                        ents.append("?")
+                txt = ",".join(ents)
+            except Exception as ex:  # noqa: BLE001
+                txt = _err(ex)
+            reqs.append(f"tl push ndim={E.ndim} ops={opsd} n=4")
+            code.append(txt)
+            inputs.append({"expr": nm, "rule": "Tail._simplify_down"})
+            nontriv.append(True)
+        if isinstance(E, Blockwise):
+            P = [E.npartitions - 1, 0]
+            try:
+                r = Partitions(E, P)._simplify_down()
+                ents = []
+                for op, o0 in zip(r.operands, E.operands):
+                    if isinstance(op, Partitions) and isinstance(o0, Expr) and op.frame._name == o0._name and list(op.partitions) == P:
+                        ents.append("1")
+                    elif not isinstance(op, Expr) or op._name == o0._name:
+                        ents.append("0")
+                    else:
+                        ents.append("?")
+                txt = ",".join(ents)
+            except Exception as ex:  # noqa: BLE001
+                txt = _err(ex)
+            reqs.append(f"pt push ndim={E.ndim} any={b01(isinstance(E, MapPartitions))} ops={opsd}")
+            code.append(txt)
+            inputs.append({"expr": nm, "rule": "Partitions._simplify_down"})
+            nontriv.append(True)
+    fr = _frame_with_divs([0, 1, 2, 3, 4])
+    for n1, k1, n2, k2 in itertools.product((2, 6, 9), (1, 2, -1), (3, 7), (1, 3, -1)):
+        try:
+            r = Head(Head(fr, n2, k2), n1, k1)._simplify_down()
+            txt = f"{r.n}:{r.operand('npartitions')}" if r.frame._name == fr._name else "?frame"
+        except Exception as ex:  # noqa: BLE001
+            txt = _err(ex)
+        reqs.append(f"hd nested n1={n1} k1={k1} n2={n2} k2={k2}")
+        code.append(txt)
+        inputs.append({"rule": "Head._simplify_down[nested]", "outer": (n1, k1), "inner": (n2, k2)})
+        nontriv.append(True)
+    for n1, n2 in itertools.product((2, 6), (3, 7)):
+        r = Tail(Tail(fr, n2), n1)._simplify_down()
+        reqs.append(f"tl nested n1={n1} n2={n2}")
+        code.append(str(r.n))
+        inputs.append({"rule": "Tail._simplify_down[nested]", "outer": n1, "inner": n2})
+        nontriv.append(True)
+    model = drive(reqs)
+    f.compare(inputs, code, model, nontriv)
+    return f
+
+
+def fam_bjoin_keys(ctx):
+    """T2: output keys of BroadcastJoin._layer under a partition selection."""
+    import dask_expr as dx
+
+    f = Family("graph_keys[BroadcastJoin._layer]")
+    reqs, code, inputs = [], [], []
+    left = dx.from_pandas(base(12), npartitions=4)
+    for how in ("inner", "left"):
+        m = left.merge(_small_coll(), on="b", how=how, broadcast=True, shuffle_method="tasks")
+        bj = m.optimize(fuse=False).expr
+        from dask_expr._merge import BroadcastJoin
+
+        bjs = list(bj.find_operations(BroadcastJoin))
+        if not bjs:
+            continue
+        e0 = bjs[0]
+        for P in [None] + _index_sets(4, 2)[1:]:
+            e = e0 if P is None else e0.substitute_parameters({"_partitions": P})
+            keys = [k[1] for k in e._layer() if k[0] == e._name]
+            reqs.append(f"pt bjoinkeys P={_nat(P if P is not None else range(4))}")
+            code.append(_nat(keys))
+            inputs.append({"how": how, "P": P})
+    model = drive(reqs)
+    f.compare(inputs, code, model)
+    f.note = "the model transliterates the code as it is: keys are numbered by ORIGINAL partition (see C11_bjoin_keys_counterexample)"
+    return f
+
+
+def fam_helpers(ctx):
+    """T4: M.head / safe_head = take, M.tail = drop (len - n); _nfirst/_nlast = sort then take; the sorted-head
+    identity on the real helpers."""
+    import warnings
+
+    from dask.utils import M
+
+    from dask_expr._expr import safe_head
+    from dask_expr._reductions import _nfirst, _nlast
+
+    f = Family("helper_specs[M.head, safe_head, M.tail, _nfirst, _nlast]")
+    rng = ctx.rng
+    for _ in range(60 if ctx.quick else 400):
+        m = rng.randint(0, 9)
+        n = rng.randint(0, 11)
+        vals = rng.sample(range(100), m)
+        df = pd.DataFrame({"k": np.array(vals, dtype="int64"), "p": np.arange(m, dtype="int64")})
+        rows = list(zip(df.k.tolist(), df.p.tolist()))
+        with warnings.catch_warnings():
+            warnings.simplefilter("ignore")
+            got = [list(zip(x.k.tolist(), x.p.tolist())) for x in (M.head(df, n), safe_head(df, n), M.tail(df, n))]
+        want = [rows[:n], rows[:n], rows[max(len(rows) - n, 0):]]
+        f.compare([{"helper": h, "m": m, "n": n} for h in ("M.head", "safe_head", "M.tail")], got, want)
+        if n > 0:
+            srt = sorted(rows)
+            g1 = _nfirst(df, columns="k", n=n, ascending=True)
+            g2 = _nlast(df, columns="k", n=n, ascending=True)
+            f.compare([{"helper": "_nfirst", "m": m, "n": n}, {"helper": "_nlast", "m": m, "n": n}],
+                      [list(zip(g1.k.tolist(), g1.p.tolist())), list(zip(g2.k.tolist(), g2.p.tolist()))],
+                      [srt[:n], srt[max(len(srt) - n, 0):]])
+            cuts = sorted(rng.sample(range(m + 1), min(2, m + 1)))
+            parts = [df.iloc[a:b] for a, b in zip([0] + cuts, cuts + [m])]
+            two = _nfirst(pd.concat([_nfirst(p, columns="k", n=n, ascending=True) for p in parts]), columns="k", n=n, ascending=True)
+            f.compare([{"helper": "nfirst-of-nfirsts", "m": m, "n": n, "cuts": cuts}],
+                      [list(zip(two.k.tolist(), two.p.tolist()))], [srt[:n]])
+    f.note = "model side = the Lean specification evaluated on the same rows (take / drop / sort-then-take; unique sort keys)"
+    return f
+
+
+def fam_sort_rules(ctx):
+    """T2: SortValues/SetIndex._simplify_up under Head/Tail -> NFirst/NLast."""
+    import dask_expr as dx
+    from dask_expr._expr import Head, Tail
+    from dask_expr._reductions import NFirst, NLast
+
+    f = Family("rule_output[SortValues/SetIndex._simplify_up(Head|Tail)]")
+    df = dx.from_pandas(base(12), npartitions=3)
+    ins, got, want = [], [], []
+    for asc in (True, False):
+        sv = df.sort_values("a", ascending=asc).expr
+        for n, k in ((3, 1), (7, 2), (5, -1)):
+            r = sv._simplify_up(Head(sv, n, k), {})
+            ins.append({"rule": "SortValues._simplify_up[Head]", "n": n, "k": k, "ascending": asc})
+            got.append((type(r).__name__, r.n, r.operand("_columns"), r.ascending, r.frame._name == df.expr._name))
+            want.append(("NFirst", n, ["a"], asc, True))
+        r = sv._simplify_up(Tail(sv, 4), {})
+        ins.append({"rule": "SortValues._simplify_up[Tail]", "ascending": asc})
+        got.append((type(r).__name__, r.n, r.operand("_columns"), r.ascending, r.frame._name == df.expr._name))
+        want.append(("NLast", 4, ["a"], asc, True))
+    si = df.set_index("a").expr
+    from dask_expr._shuffle import SetIndex
+
+    sis = [x for x in si.walk() if isinstance(x, SetIndex)]
+    if sis:
+        si = sis[0]
+        r = si._simplify_up(Head(si, 3, 2), {})
+        ins.append({"rule": "SetIndex._simplify_up[Head]"})
+        got.append((type(r).__name__, type(r.frame).__name__, r.frame.n, r.frame.operand("_columns"), r.frame.ascending))
+        want.append(("SetIndex", "NFirst", 3, "a", True))
+        r = si._simplify_up(Tail(si, 3), {})
+        ins.append({"rule": "SetIndex._simplify_up[Tail]"})
+        got.append((type(r).__name__, type(r.frame).__name__, r.frame.n, r.frame.operand("_columns"), r.frame.ascending))
+        want.append(("SetIndex", "NLast", 3, "a", True))
+    f.compare(ins, [repr(g) for g in got], [repr(w) for w in want])
+    f.note = "model side = the rule as C11_sorted_head reads it: NFirst/NLast of the sort's input with the head's n, the sort key and direction (npartitions of the head is not used)"
+    return f
+
+
 def families(ctx):
-    return []
+    return [fam_seldiv, fam_partitions_layer, fam_filtered_contract, fam_compose, fam_fromarray, fam_frompandas,
+            fam_head_lower, fam_head_divisions, fam_push_rules, fam_bjoin_keys, fam_helpers, fam_sort_rules,
+            _c12_graphs]
+
+
+def _c12_graphs(ctx):
+    """the shuffle layers with partition subsets (C11_filtered_shuffle_* rest on the C12 layer models)"""
+    from harness.props import c12
+
+    return c12.fam_graphs(ctx)
